@@ -91,6 +91,12 @@ def build_go(race=False):
             if p.returncode != 0:
                 raise Infra("go build %s failed (repository or harness does not compile):\n%s" % (name, p.stderr[-4000:]))
             outs[name] = out
+        # the repository's own CLI (C18)
+        out = os.path.join(BUILD, "bin", "setec-cli")
+        p = run([GO, "build", "-o", out, "./cmd/setec"], cwd=REPO, env=goenv(), timeout=1200)
+        if p.returncode != 0:
+            raise Infra("go build ./cmd/setec failed (repository does not compile):\n%s" % p.stderr[-4000:])
+        outs["setec-cli"] = out
         return outs
 
 
@@ -212,7 +218,8 @@ def run_shard(bins, sh, tmp, idx, keep_trace=False):
     d = os.path.join(tmp, "s%d" % idx)
     os.makedirs(d, exist_ok=True)
     trace = os.path.join(d, "trace.txt")
-    cmd = [bins[sh.binary], sh.family] + sh.args + ["-dir", os.path.join(d, "scratch"), "-o", trace]
+    args = [bins["setec-cli"] if a == "@CLI" else a for a in sh.args]
+    cmd = [bins[sh.binary], sh.family] + args + ["-dir", os.path.join(d, "scratch"), "-o", trace]
     t0 = time.time()
     env = dict(os.environ)
     env.setdefault("GOMEMLIMIT", "4GiB")
